@@ -87,7 +87,8 @@ INIT Init
 NEXT Next
 VIEW View
 CONSTRAINT Bound
-{inv if mode == "mc" else "ACTION_CONSTRAINT Emit"}
+{inv if mode in ("mc", "both") else ""}
+{"ACTION_CONSTRAINT Emit" if mode in ("emit", "both") else ""}
 CHECK_DEADLOCK FALSE
 """
 
@@ -352,14 +353,14 @@ def run(focus, tier, seed):
         mod = mc_module(p)
         const = {k: p[k] for k in p if k != "nparts"}
         for i in range(p["nparts"]):
-            jobs.append(dict(module=mod, cfg=cfg(p, p["nparts"], i, "mc"), workers=1, timeout=3000, tag=("mc", const)))
-            jobs.append(dict(module=mod, cfg=cfg(p, p["nparts"], i, "emit"), workers=1, timeout=3000, params=p, tag=("emit", const)))
+            jobs.append(dict(module=mod, cfg=cfg(p, p["nparts"], i, "both"), workers=1, timeout=3000, params=p, tag=("mc", const)))
     t, rs = s2c.run_s2c(MOD, focus, jobs, tlc_parallel=10)
     total.merge(t)
     agg = {}
     for job, r in zip(jobs, rs):
         kind, const = job["tag"]
         key = repr(const)
+        total.extra["emitted"] = total.extra.get("emitted", 0) + r.emitted
         if kind == "mc":
             a = agg.setdefault(key, {"spec": "Cuckoo", "constants": const, "mode": "exhaustive", "generated": 0, "distinct": 0, "depth": 0, "wall_s": 0, "ok": True})
             a["generated"] += r.generated
@@ -370,8 +371,6 @@ def run(focus, tier, seed):
                 a["ok"] = False
                 prop = {"Kept": "C03", "NoPhantom": "C03", "FailedKeeps": "C03", "CountExact": "C08", "CounterOK": "C14"}.get(inv, "C15")
                 total.fail(prop, f"{prop}.model.{inv}", ENGINE, {"tlc": r.error_trace[:80] or r.tail[-30:], "constants": const}, {"model": inv})
-        else:
-            total.extra["emitted"] = total.extra.get("emitted", 0) + r.emitted
     total.mc += list(agg.values())
     total.rules.append(
         "Cuckoo: every transition TLC generates (every key add/remove/expand from every reachable table, for every alternate-bucket table and "
